@@ -111,6 +111,7 @@ type World struct {
 
 	violations []Violation
 
+	nontrivial  bool // set by scenarios whose notion of non-trivial is not schedule based
 	RecordGates bool
 	gateLog     [256]GatePass
 	ngates      int
@@ -383,6 +384,11 @@ func (w *World) Step() int64 { return atomic.LoadInt64(&w.step) }
 func (t *Task) Note(format string, args ...any) {
 	t.notes = append(t.notes, fmt.Sprintf(format, args...))
 }
+
+// MarkNontrivial lets a scenario with its own notion of a non-trivial case flag the run; Mix adds to the fingerprint.
+func (w *World) MarkNontrivial() { w.nontrivial = true }
+func (w *World) Mix(s string)     { w.mix(s) }
+func (w *World) SetMaxSteps(n int) { w.maxSteps = n }
 
 // Note from the scheduler goroutine.
 func (w *World) Note(format string, args ...any) {
@@ -719,7 +725,7 @@ func (w *World) result() *RunResult {
 	for _, v := range r.Faults {
 		nf += v
 	}
-	r.Nontrivial = w.overlaps > 0 || nf > 0
+	r.Nontrivial = w.overlaps > 0 || nf > 0 || w.nontrivial
 	h := w.fp
 	for _, n := range r.Notes {
 		h ^= hashString(n)
